@@ -291,6 +291,7 @@ func TestC19Runs(t *testing.T) {
 				}
 				x.keepBlocks = true
 				beginCase("C19", "runs-"+kind, func() any { return x.Case() })
+				defer endCase() // also when rapid abandons the case half-way (fuzzing: input used up)
 				genRunHistory(t, x)
 				if !x.dead {
 					checkRunBlocks(x)
